@@ -313,6 +313,7 @@ class LibraryProcess:
         s.k = params.get('k', 2)
         s.N = params.get('N', 16)
         s.max_len = params.get('max_len', 12)
+        s.all_chunkings = params.get('all_chunkings', False)
         s.twin = params.get('twin', False)
 
     def body(s):
@@ -325,7 +326,13 @@ class LibraryProcess:
         if len(stream) > s.max_len:
             return {'viol': None, 'skipped': True}
         dev = w.new_device('T1')
-        ad = ScriptAdapter(list(stream), fork_chunks=True, max_empty=0)
+        if s.all_chunkings:
+            ad = ScriptAdapter(list(stream), fork_chunks=True, max_empty=0)
+        else:
+            # schedule family: whole stream, one byte per read, every single cut, every pair of cuts
+            L = len(stream)
+            scheds = [[L], []] + [[i, L - i] for i in range(1, L)] + [[i, j - i, L - j] for i in range(1, L) for j in range(i + 1, L)]
+            ad = ScriptAdapter(list(stream), chunks=scheds[ex.decide([(k, True) for k in range(len(scheds))])], tail=1)
         s.ad = ad
         r = w.process(dev, s.N, ad)
         calls = calls_of(dev)
